@@ -30,6 +30,7 @@ THEOREMS = [
     "RedunModel.C26.job_context_no_override",
     "RedunModel.C26.update_context_first",
     "RedunModel.C26.update_context_chained",
+    "RedunModel.C26.override_of_chain",
     "RedunModel.C26.nary_note",
     "RedunModel.C26.lookup_spec",
     "RedunModel.C26.lookup_default",
@@ -65,14 +66,17 @@ RULE = ("JSON-like contexts (depth <= 4, keys from a small alphabet incl. '', 'a
         "with the SAME task and arguments under different overrides, incl. task calls used as argument defaults whose context reads "
         "sit one or two jobs further down) run on the real Scheduler, every returned value compared with the model's "
         "jobContext/getContextValue and with the spec; every finalized job's context_hash is recorded: equal hashes <=> equal "
-        "contexts per scheduler. distinct = distinct "
+        "contexts per scheduler. Every call in a tree goes through a random chain of .update_context / .partial / .options on the called "
+        "task (update_context before and after partial, several times); the override it carries is compared with the model's "
+        "overrideOfChain and with the deep merge of all its update_context overrides. distinct = distinct "
         "(inputs) tuples; non-trivial = at least one mapping with a nested mapping or a path of >= 2 segments")
 
 LEVEL_TEXT = ("Proved in Lean, all full strength, for contexts of any depth/width with non-mappings anywhere (Ctx.WF = unique keys is the dict "
               "invariant, not a restriction): binary_is_deepMerge (merge_dicts' n-ary grouping algorithm on two arguments IS the deep merge "
               "'later wins, mappings merged'), root_context (root = config context merged with run context), job_context / job_context_step "
               "(induction over the ancestor chain: a job's context = fold of deepMerge over the overrides on its path), "
-              "job_context_no_override, update_context_first / update_context_chained, lookup_spec + lookup_default / lookup_found "
+              "job_context_no_override, update_context_first / update_context_chained, override_of_chain (the override a call carries after "
+              "a chain of update_context calls - with .partial()/.options() anywhere in between - is the deep merge of ALL of them in order), lookup_spec + lookup_default / lookup_found "
               "(get_context_value finds exactly the value at the dotted path, else the default; empty segments and non-mappings on the way "
               "included), merge_lookup, merge_as_path_function + key_order_irrelevant + reorder_extEq + lookup_respects_extEq (the merged "
               "context as a function from paths to values depends only on the inputs as such functions: key order irrelevant at any depth). "
@@ -238,7 +242,7 @@ def tasks():
         for kind, calls, child in spec["children"]:
             t = {"node": node, "probe_ab": probe_ab, "probe_c": probe_c, "reader": reader, "wrap": wrap, "mid": mid, "midr": midr,
                  "mid_body": mid_body}[kind]
-            c.append(apply_chain(t, calls, child))
+            c.append(apply_chain(t, calls, child)[0])
         return {"id": spec["id"], "q": q, "c": c}
 
     _T.update(node=node, probe_ab=probe_ab, probe_c=probe_c, reader=reader, wrap=wrap, mid=mid, midr=midr, mid_body=mid_body,
@@ -303,13 +307,13 @@ def ambiguous(steps):
 
 
 def partial_between(steps):
-    """a .partial() after one update_context and before another"""
+    """an update_context on a partially applied task (a .partial() somewhere before it) after an earlier non-empty update_context"""
     seen_uc, seen_p = False, False
     for st in steps:
         if st[0] == "partial":
-            seen_p = seen_p or seen_uc
+            seen_p = True
         elif st[0] != "options":
-            if seen_p and (st[-2] or st[-1]):
+            if seen_p and seen_uc:
                 return True
             seen_uc = seen_uc or bool(st[-2]) or bool(st[-1])
     return False
